@@ -475,6 +475,8 @@ func emitDIDDocRoundTrip(out *Out, r *Rng) {
 	out.Emit(Case{Op: "none", In: J{"doc": json.RawMessage(b0)}, Impl: okJ("stable"), Prop: propOf(why), Tags: []string{"diddoc", fmt.Sprintf("auth:%d", len(auth)), "gistproof:" + proofKind}, NT: true})
 }
 
+var sigIssuer *Issuer
+
 func genC14(out *Out, r *Rng, tier string, n int, shard int) {
 	for i := 0; i < n; i++ {
 		emitStructView(out, r)
@@ -484,6 +486,12 @@ func genC14(out *Out, r *Rng, tier string, n int, shard int) {
 		}
 		for k := 0; k < 4; k++ {
 			emitDidAuth(out, r)
+		}
+		if sigIssuer == nil {
+			sigIssuer = NewIssuer(r, 0)
+		}
+		for k := 0; k < 3; k++ {
+			emitSigHex(out, r, sigIssuer)
 		}
 	}
 }
